@@ -10,6 +10,7 @@ Usage (from /verif):
     /venv/bin/python -m harness.automut enumerate                 -> work/automut/mutants.json
     /venv/bin/python -m harness.automut tests   [-j N]            -> work/automut/tests.json     (killed / survived)
     /venv/bin/python -m harness.automut checks  [-j N] [filter]   -> seeded/automut_results.json (caught_by / uncaught)
+    /venv/bin/python -m harness.automut checks-all [-j N]         -> second pass: uncaught, not log-only survivors against all checks
 Scratch copies of /repo live under /tmp/automut and are removed at the end of each phase.
 """
 from __future__ import annotations
@@ -290,6 +291,53 @@ def phase_checks(jobs, flt=None):
     shutil.rmtree(SCRATCH, ignore_errors=True)
 
 
+LOG_WORDS = ("log(", "_log_line", "verbosity", "logger", "shortlog", "stdout", "highlighted", "as_error", "as_success", "as_warning",
+             "_counted", "_padded", "get_status_string", "warn(", "print(", "colorama", "use_colors", "use_styles", "report +=",
+             "_get_indented", "indentation", "cpu_time", "__version__")
+
+
+def log_only(r):
+    """the mutated line only produces console / report text (no property speaks about it)"""
+    return any(w in r["source_line"] for w in LOG_WORDS)
+
+
+def phase_checks_all(jobs):
+    """second pass: survivors that the checks anchored in their file did not catch, and that are not log-only, against ALL other checks"""
+    allm = {m["id"]: m for m in json.loads((OUT / "mutants.json").read_text())}
+    respath = VERIF / "seeded" / "automut_results.json"
+    res = json.loads(respath.read_text())
+    todo = [k for k, r in res.items() if not r["caught_by"] and not log_only(r) and not r.get("all_checks_run")]
+    roots = make_copies(jobs)
+    every = [f"C{i:02d}" for i in range(1, 21)]
+
+    def one(root, k):
+        m = allm[int(k)]
+        r = dict(res[k])
+        apply_mutant(root, m)
+        try:
+            for c in every:
+                if c in m["properties"]:
+                    continue
+                rc, out = sh(f"./check {c} quick", cwd=VERIF, timeout=1500,
+                             env={"VERIF_REPO": str(root), "VERIF_EVIDENCE_DIR": str(root / "_evid")})
+                nv = sum(1 for ln in out.splitlines() if ln.startswith("VIOLATION"))
+                r["checks"] = r["checks"] + [f"{c}:exit={rc},violations={nv}"]
+                if rc != 0:
+                    r["caught_by"] = c
+                    break
+            r["all_checks_run"] = True
+            return k, r
+        finally:
+            restore(root, m)
+    for chunk in [todo[i:i + 2 * jobs] for i in range(0, len(todo), 2 * jobs)]:
+        for k, r in pool_map(one, chunk, roots):
+            res[k] = r
+        respath.write_text(json.dumps(res, indent=0))
+        c = sum(1 for v in res.values() if v["caught_by"])
+        print(f"second pass: {sum(1 for v in res.values() if v.get('all_checks_run'))}/{len(todo)} done, {c} caught in total", flush=True)
+    shutil.rmtree(SCRATCH, ignore_errors=True)
+
+
 if __name__ == "__main__":
     args = sys.argv[1:]
     jobs = 12
@@ -303,3 +351,5 @@ if __name__ == "__main__":
         phase_tests(jobs)
     elif args[0] == "checks":
         phase_checks(jobs, args[1] if len(args) > 1 else None)
+    elif args[0] == "checks-all":
+        phase_checks_all(jobs)
